@@ -175,19 +175,21 @@ theorem one_clause_is_one_join {F : Facts} (hF : Facts.WF F = true) {gs : List Q
 
 /-! ### Projected onto the selected bindings -/
 
-/-- The plain projection of the planner (`projectPlain`: for each projection in turn, copy the binding's
-    cell to the alias) shows in every output column the cell the reference's simultaneous projection
-    shows — for statements whose aliases are fresh names (no alias is the input of a projection or the
-    output of another one: what `?a as ?b, ?b as ?c` would break) and rows that hold every projected binding. -/
+/-- The plain projection of the planner (`projectPlain`: for each row, read the cell of every projected
+    binding, then write the aliases) shows in every output column the cell the reference's simultaneous
+    projection shows — for every statement whose output names are distinct, whatever the aliases are called
+    (`?a as ?b, ?b as ?c` included: before 1cfe61b the aliases were copied one after the other and the second
+    column showed `?a`), and rows that hold every projected binding. -/
 theorem projection_is_simultaneous (ps : List Proj) (rows : List Row) (hb : ∀ p ∈ ps, p.binding ≠ [])
-    (hf : BW.Proofs.Projection.FreshAliases ps) (hr : ∀ r ∈ rows, ∀ p ∈ ps, r.has p.binding = true) :
-    let projected := ps.foldl (fun rows p => rows.map fun r => match r.get p.binding with
-        | some c => r.set p.alias c
-        | none => r) rows
-    projected = rows.map (BW.Proofs.Projection.seqProj ps) ∧
-    ∀ r ∈ rows, ∀ p ∈ ps, (BW.Proofs.Projection.seqProj ps r).get p.out = (project ps r).get p.out :=
-  ⟨BW.Proofs.Projection.projectPlain_rows ps rows,
-   fun r hr' p hp => BW.Proofs.Projection.projection_spec ps r hb hf (hr r hr') p hp⟩
+    (hn : (ps.map Proj.out).Nodup) (hr : ∀ r ∈ rows, ∀ p ∈ ps, r.has p.binding = true) :
+    ∀ r ∈ rows, ∀ p ∈ ps, (projectRow ps r).get p.out = (project ps r).get p.out :=
+  fun r hr' p hp => BW.Proofs.Projection.projection_spec ps r hb hn (hr r hr') p hp
+
+/-- Non-vacuity, at the point the old hypothesis excluded: `?s as ?o, ?o as ?x` on a row `?s ↦ a, ?o ↦ b`
+    shows `a` under `?o` and `b` under `?x`. -/
+example : let r : Row := [([63, 115], .str [97]), ([63, 111], .str [98])]
+    let ps : List Proj := [{ binding := [63, 115], alias := [63, 111] }, { binding := [63, 111], alias := [63, 120] }]
+    ((projectRow ps r).get [63, 111], (projectRow ps r).get [63, 120]) = (some (.str [97]), some (.str [98])) := by decide
 
 /-! ### From the text to the clause -/
 
